@@ -10,10 +10,11 @@ SPEC = {
         "the walk is modelled as a labelled transition system whose steps are the blocking channel operations of cli/src/walk.rs (one step = one send/recv, the scan of one file, or a thread returning); crossbeam channels are assumed to be FIFO queues with the documented blocking/disconnect behaviour; threads are assumed to run (fairness is not needed: the theorems are about every finite schedule and every maximal one ends)",
         "the directory iterator (globwalk/walkdir) is abstracted to the list of entries it yields; the scan of a file is abstracted to an arbitrary function file -> result lines (the theorems hold for every such function); what the real scanner returns per file is compared with the library API by the harness",
         "real thread schedules are sampled by the operating system, not steered: the harness runs the real yr binary with 1..32 threads on generated trees; the Coq model is run under a pseudo-random schedule derived from the case seed and must print the same multiset",
-        "sending Message::Error and Message::Abort are two channel operations in the code and one model step; console.log messages, --count, --negate, --tag, json output and the second (post-join) output channel are not modelled",
+        "sending Message::Error and Message::Abort are two channel operations in the code and one model step; console.log messages, json output and the second (post-join) output channel are not modelled; the option plumbing (--define, --tag, --negate, --count, ...) is outside the channel model: it is covered by the translator's shape check of the per-worker scanner initialisation and by the option-matrix runs (source vs compiled vs library)",
+        "a run that hits the 60 s limit is repeated (3 attempts) and only reported as a hang if it hangs every time; single stalls are counted in the distribution",
         "after an Abort (only with --timeout) nothing is claimed about WHICH lines are printed; the process must still terminate: the model proves it for the receiver fact of the source (no_deadlock) and the abort probe checks it on the real binary",
     ],
-    "trusted_base": ["Gen/WalkGen.v: channel capacity, fallback thread count and the `main keeps the paths Receiver` fact, regenerated from cli/src/walk.rs; the translator also checks 17 syntactic shapes of walk.rs / scan.rs / main.rs the model relies on",
+    "trusted_base": ["Gen/WalkGen.v: channel capacity, fallback thread count and the `main keeps the paths Receiver` fact, regenerated from cli/src/walk.rs; the translator also checks 22 syntactic shapes of walk.rs / scan.rs / main.rs the model relies on, including that the per-thread initialisation closure of scan.rs applies every --define (set_global loop) and the scan options to each worker's own scanner",
                      "the yr binary is built from /repo's working tree by `cargo build --offline -p yara-x-cli` (hooks off) before the harness runs"],
 }
 
@@ -22,7 +23,7 @@ RULE = ("generated directory trees (0-600 files, nested directories up to depth 
         "files removed after yr printed its first line, file names that are not UTF-8) x 2-11 generated rules (text/hex/regexp/filesize/count/private) x "
         "--threads 1..32 x text|ndjson x source|`yr compile`+--compiled-rules x --recursive / --recursive=K / none; the output is parsed into a multiset of "
         "(file, rule) lines (ndjson: (file, rule set), one line per file) and compared with per-file scans through the library API and with the --threads 1 run; "
-        "the Coq model is run with the same thread count under a seeded pseudo-random schedule. First, as regression corpus: the abort probe (capacity+1 / capacity+2 files, -p 1 -a 1, a rule that never ends: must exit) and a tree with non-UTF-8 file names (printed lossily, U+FFFD, in both formats). "
+        "the Coq model is run with the same thread count under a seeded pseudo-random schedule. Option matrix (30% of the trees + a fixed first case): rules over external variables of every type (int/string/bool/float), tags, meta, a private rule, a module; `yr compile` with compile-time --define values, then `yr scan <opts> rules.yar` vs `yr scan <opts> --compiled-rules rules.yarc` with scan-time --define values that differ, x --tag / --negate / --count / --max-matches-per-pattern / --print-strings[=N] / --print-meta / --print-tags / --print-namespace / --path-as-namespace / --ignore-module (compile vs scan) / --skip-larger / --recursive[=K] / --scan-list / text|ndjson / threads 1..32: the two outputs must be equal as sorted lines and both equal the per-file library oracle computed with the SAME globals and scan options. First, as regression corpus: the abort probe (capacity+1 / capacity+2 files, -p 1 -a 1, a rule that never ends: must exit) and a tree with non-UTF-8 file names (printed lossily, U+FFFD, in both formats). "
         "Non-trivial: >= 2 files in scope and >= 2 threads; distinct by (tree, threads, format, rules form).")
 
 
@@ -55,7 +56,7 @@ def run_k(run, tier, seed, drv):
     cap = generated_capacity(drv)
     if cap is None:
         return {"broken": [("translator gen_walk", "Gen/WalkGen.v has no paths_channel_capacity")], "violations": []}
-    n = 100 if tier == "quick" else 2400
+    n = 90 if tier == "quick" else 2400
     info = standard_k(run, drv, "C18", "c18", ["--seed", seed, "--n", n, "--yr", yr, "--cap", cap], "K_C18_walk", classify)
     info["rule"] = RULE
     return info
